@@ -157,4 +157,8 @@ def run(tier, seed):
             res.violations.append({"clause": "window-bound", "signature": "C10:window",
                                    "case": {"capacity": cap, "refill_rate": str(rate), "events": [[str(x) for x in e] for e in ev]},
                                    "trace": {"decisions": dec_}})
+    # through the command line: generated configurations whose [rate_limit] section has capacity 2 / 500 / default / disabled
+    import livetls
+    livetls.run_config_matrix(res, tier, "C10", seed)
+    res.rule += " | plus the CLI: serve --config with generated [rate_limit] sections (capacity 2 with retry_after 7, 500, default, disabled), 6 valid requests and one over-long line from 127.0.0.1"
     return res
